@@ -370,6 +370,7 @@ type g08 struct {
 	accts  []string
 	payees []string
 	yearOK bool
+	nb     bool // prefer texts with characters outside the BMP (every second pick)
 }
 
 var (
@@ -389,7 +390,25 @@ var (
 		"год/файл.journal", "em😀ji.journal", "with space.journal"}
 )
 
-func (g *g08) pick(xs []string) string { return xs[g.r.IntN(len(xs))] }
+func (g *g08) pick(xs []string) string {
+	x := xs[g.r.IntN(len(xs))]
+	if g.nb && g.r.IntN(2) == 0 {
+		// a non-BMP alternative from the same pool, if it has one
+		var nb []string
+		for _, s := range xs {
+			for _, c := range s {
+				if c >= 0x10000 {
+					nb = append(nb, s)
+					break
+				}
+			}
+		}
+		if len(nb) > 0 {
+			return nb[g.r.IntN(len(nb))]
+		}
+	}
+	return x
+}
 func (g *g08) blanks(lo, hi int) string {
 	return strings.Repeat(" ", lo+g.r.IntN(hi-lo+1))
 }
@@ -612,7 +631,14 @@ func (g *g08) directive() []string {
 }
 
 func genJournalC08(r *rand.Rand, maxEntries int) string {
-	g := &g08{r: r}
+	return genJournalC08nb(r, maxEntries, false)
+}
+
+// genJournalC08nb: with nb, accounts, descriptions, codes, commodities, comments, tag values
+// and include paths hold characters outside the BMP far more often, so that every kind of
+// range is regularly preceded by one on its line.
+func genJournalC08nb(r *rand.Rand, maxEntries int, nb bool) string {
+	g := &g08{r: r, nb: nb}
 	var lines []string
 	n := 1 + r.IntN(maxEntries)
 	for i := 0; i < n; i++ {
@@ -664,6 +690,12 @@ func genC08(c *Ctx) {
 	for i := 0; i < c.N(300, 3000); i++ {
 		text := genJournalC08(r, c.N(4, 8))
 		c.Emit("c08.doc", c08Doc(c, text, true))
+	}
+	// journals dense in characters outside the BMP (the server converts rune columns to UTF-16
+	// units at the protocol boundary)
+	for i := 0; i < c.N(60, 600); i++ {
+		c.Count("docs.nonbmp-dense")
+		c.Emit("c08.doc", c08Doc(c, genJournalC08nb(r, c.N(4, 8), true), true))
 	}
 	// CRLF journals (G allows them; the parser does not cope: C03) and free text: totality and
 	// correspondence only where the driver says so
